@@ -44,7 +44,7 @@ def run(tier):
         raise Broken("design model MC_TmsQuad fails: %s\n%s" % (d0.violated or d0.error, d0.trace_text[:2000]))
     drv = vlib.build_harness()
     texel = vlib.build_texel_binary()
-    p = vlib.run([drv, "tms-quad-trace"], timeout=1200)
+    p = vlib.run([drv, "tms-quad-trace"] + (["-deep"] if tier == "thorough" else []), timeout=1200)
     if p.returncode != 0:
         raise Broken("tms-quad-trace failed: " + p.stderr[-2000:])
     recs = [json.loads(x) for x in p.stdout.splitlines() if x.startswith("{")]
